@@ -205,7 +205,7 @@ def run_history(case):
                 mf_in, version = metas[target]
                 mf_fr = os.path.join(scratch_fr, "m.torrent")
                 shutil.copyfile(mf_in, mf_fr)
-            alt = (n + case["id"]) % 2 == 1
+            alt = stp["alt"] if "alt" in stp else (n + case["id"]) % 2 == 1
             route = stp.get("route", "lib") if op == "create" else stp.get("search", "own")
             align = bool(stp.get("align")) and op == "create"
             res_fr = fresh(op, opbase, target, version, mf_fr, scratch_fr, plen, alt, route, align,
